@@ -405,3 +405,15 @@ package core
 //@   ensures [signals_the_wait_group] ghost.wg[addr(wg)] == old(ghost.wg[addr(wg)]) - 1
 
 //@ rule goroutine_roots prop=C11
+
+// The error a recovered panic is turned into must itself be harmless to print: its text goes
+// through fmt (which shields against a panic value whose own Error/String method panics), never
+// through a direct call of a method of the panic value.
+//@ func (*PanicError).Error
+//@   prop C11
+//@   nopanic
+//@   requires pe != nil
+//@ func (*PanicError).String
+//@   prop C11
+//@   nopanic
+//@   requires pe != nil
